@@ -1265,6 +1265,19 @@ func (mgr *Manager) UpdateTag(name string, operation UpdateTagOperation) error {
 				mgr.startConverterJobIfNeeded()
 			}
 			if info.convertersUpdated {
+				// check that the update can be applied completely before changing anything
+				converterNames := tag.converterNames()
+				for _, converterName := range info.setConverterNames {
+					if slices.Contains(converterNames, converterName) {
+						continue
+					}
+					if _, ok := mgr.converters[converterName]; !ok {
+						return fmt.Errorf("unknown converter %q", converterName)
+					}
+					if tag.features.MainFeatures&query.FeatureFilterData != 0 || tag.features.SubQueryFeatures&query.FeatureFilterData != 0 || len(tag.features.MainTags) > 0 || len(tag.features.SubQueryTags) > 0 {
+						return fmt.Errorf("failed to attach converter %q to tag %q: query is too complex", converterName, name)
+					}
+				}
 				// detach deselected converters from tag
 				for _, converter := range tag.converters {
 					if slices.Contains(info.setConverterNames, converter.Name()) {
@@ -1275,7 +1288,7 @@ func (mgr *Manager) UpdateTag(name string, operation UpdateTagOperation) error {
 					}
 				}
 				// attach new converters to tag
-				converterNames := tag.converterNames()
+				converterNames = tag.converterNames()
 				for _, converterName := range info.setConverterNames {
 					if slices.Contains(converterNames, converterName) {
 						continue
